@@ -253,13 +253,18 @@ StartSubs(q, c, ss, tt) == StartSubsFrom(q, c, ss, 1, <<>>, tt)
 \* ---- random picks
 \* enabled scenario items of a choose/shuffle in a compose block: <<s, w>> whose preconditions hold now
 SEnabled(q, items, tt) == SelectSeq(items, LAMBDA it : AllTrue(q, Sdef(q, it[1]).pre, tt))
-PickCount(c) == IF c.pk = "rand" THEN c.opts[2] - c.opts[1] + 1 ELSE Len(c.opts)
+\* pick kinds: "rand" (uniform integer lo..hi), "disc" (run-time Discrete({v: w, ...}): opts = <<label, items>>),
+\* "items" / "sitems" (choose or shuffle over behaviours / scenarios: opts = the enabled <<d, w>>).  Weights are
+\* integers here; a case may print them divided by a common power of two (field wscale): only ratios matter.
+PickItems(c) == IF c.pk = "disc" THEN c.opts[2] ELSE c.opts
+PickCount(c) == IF c.pk = "rand" THEN c.opts[2] - c.opts[1] + 1 ELSE Len(PickItems(c))
 PickWeight(c, i) == IF c.pk = "rand" THEN Rat!Of(1, c.opts[2] - c.opts[1] + 1)
-                    ELSE Rat!Of(c.opts[i][2], SumW(c.opts))
+                    ELSE Rat!Of(PickItems(c)[i][2], SumW(PickItems(c)))
 \* the coroutine after alternative i of its pending pick has been taken (one micro-step)
 PickStep(q, c, i, tt) ==
   LET c0 == [c EXCEPT !.sig = "run", !.opts = <<>>, !.pk = "none"] IN
   IF c.pk = "rand" THEN Emit(c0, <<"rnd", c.opts[3], c.opts[1] + i - 1, tt>>)
+  ELSE IF c.pk = "disc" THEN Emit(c0, <<"rnd", c.opts[1], c.opts[2][i][1], tt>>)
   ELSE LET it == c.opts[i]
            c1 == IF c0.st # <<>> /\ Top(c0).k = "shuf"
                  THEN SetTop(c0, [Top(c0) EXCEPT !.items = SelectSeq(Top(c0).items, LAMBDA x : x # it)])
@@ -372,6 +377,7 @@ Micro(q, c, tt) ==
                        ELSE AskPick(q, c1, en, "sitems", tt)
                   [] s[1] = "sshuffle" -> Push(c1, FShuf(s[2], TRUE))
                   [] s[1] = "rand" -> AskPick(q, c1, <<s[2], s[3], s[4]>>, "rand", tt)
+                  [] s[1] = "disc" -> AskPick(q, c1, <<s[3], s[2]>>, "disc", tt)     \* ["disc", items <<v, w>>, label]
                   [] s[1] = "try" -> EnterBlock(q, Push(c1, [FTry(s[3]) EXCEPT !.act = -1] @@ [body |-> s[2]]), tt)
                   [] s[1] \in {"abort", "break", "continue"} -> Unwind(c1, s[1])
                   [] s[1] = "return" ->
